@@ -35,7 +35,7 @@ FUZZ = {"quick": 3200, "thorough": 160000}  # executions of the coverage-guided 
 RULE = (
     "case = (shape, n_infinite, value function with zero/chain/loop elements, sequence of <=12 operations: "
     "get(index expression of ints incl. negative finite ones, np.integer, equal-length lists, forward slices), "
-    "view(finite-only index) + get on the view, pop, malformed requests (infinite slice, negative order as int/"
+    "view(finite-only index) + get on the view, pop, interrupted requests (the k-th evaluation raises KeyboardInterrupt / SystemExit / ValueError, then the request is repeated), malformed requests (infinite slice, negative order as int/"
     "list entry/slice bound, wrong arity), requests reaching a self-referential element). Oracle: dense numpy "
     "object array of the value function indexed by the same expression (values, masks, scalar-vs-array kind), "
     "eval log subset of the dependency closure of the request, every index evaluated at most once while cached. "
